@@ -40,10 +40,19 @@ Print Assumptions out_of_range_constant_raises_index_error.
 
 Theorem non_constant_selector_left_intact : forall f st bd c v s v' s' c1 c2,
   simp f st bd c v = Ok (v', c1) -> simp f st bd c1 s = Ok (s', c2) ->
-  is_literal v' = true -> is_const s' = false ->
-  simp (S f) st bd c (Subscript v s) = Ok (Subscript v' s', c2).
+  is_literal v' = true -> is_const (norm_index s') = false ->
+  simp (S f) st bd c (Subscript v s) = Ok (Subscript v' (norm_index s'), c2).
 Proof. exact odd_selector_step. Qed.
 Print Assumptions non_constant_selector_left_intact.
+
+(* a negative literal index -(n) is folded to a constant and projected like any other index *)
+Theorem negative_literal_index_projected : forall f st bd c v s es n c1 c2 x,
+  simp f st bd c v = Ok (Tuple es, c1) \/ simp f st bd c v = Ok (List es, c1) ->
+  simp f st bd c1 s = Ok (UnaryOp USub (Const (CInt n)), c2) ->
+  py_index es (- n) = Some x -> (- Z.of_nat (length es) <= - n < Z.of_nat (length es))%Z ->
+  simp (S f) st bd c (Subscript v s) = Ok (x, c2).
+Proof. exact negative_literal_step. Qed.
+Print Assumptions negative_literal_index_projected.
 
 Theorem wrong_type_constant_left_intact : forall f st bd c v s es k c1 c2,
   simp f st bd c v = Ok (Tuple es, c1) \/ simp f st bd c v = Ok (List es, c1) ->
@@ -108,7 +117,9 @@ Proof. repeat split; vm_compute; reflexivity. Qed.
 Definition tup3 := Tuple [Const (CInt 1); Const (CInt 2); Const (CInt 3)].
 Example odd_selectors_run :
      simplify 50 0 (Subscript tup3 (Name "i")) = Ok (Subscript tup3 (Name "i"), 0)
-  /\ simplify 50 0 (Subscript tup3 (UnaryOp USub (Const (CInt 1)))) = Ok (Subscript tup3 (UnaryOp USub (Const (CInt 1))), 0)
+  /\ simplify 50 0 (Subscript tup3 (UnaryOp USub (Const (CInt 1)))) = Ok (Const (CInt 3), 0)
+  /\ simplify 50 0 (Subscript tup3 (UnaryOp USub (Name "i"))) = Ok (Subscript tup3 (UnaryOp USub (Name "i")), 0)
+  /\ simplify 50 0 (Subscript tup3 (UnaryOp USub (Const (CInt 4)))) = IndexErr
   /\ simplify 50 0 (Subscript tup3 (Const (CInt (-1)))) = Ok (Const (CInt 3), 0)
   /\ simplify 50 0 (Subscript tup3 (Const (CInt 3))) = IndexErr
   /\ simplify 50 0 (Subscript tup3 (Const (CInt (-4)))) = IndexErr
